@@ -44,6 +44,8 @@ def linear_rows(mp, polys, n, k, bufname='data'):
     for j, p in enumerate(polys):
         row = {}
         for m, c in p.items():
+            if mp.undecided({m: c}):
+                raise Unsupported('output %d contains an operation the congruence rewriting does not model: %s' % (j, mp.show({m: c})))
             if len(m) != 1:
                 return None, 'output %d has the non-linear / constant term %s' % (j, mp.show({m: c}))
             key = inv[m[0]]
@@ -93,7 +95,12 @@ def ntt_algebra(L, R, qs, tier):
                 mp = ModPoly(q, None, bound)
                 outs = [val(fwd, 32 * j + 8 * k) for j in range(n)]
                 ps = mp.of_many(outs)
-                rows, err = linear_rows(mp, ps, n, k)
+                try:
+                    rows, err = linear_rows(mp, ps, n, k)
+                except Unsupported as e:
+                    R.broke('NTT n=%d prime %d: %s' % (n, k + 1, e))
+                    bad.setdefault('A', 'not decided')
+                    continue
                 nchk += n
                 if err:
                     bad.setdefault('A', 'prime %d: %s' % (k + 1, err))
@@ -123,6 +130,9 @@ def ntt_algebra(L, R, qs, tier):
                 for j, p in enumerate(ps2):
                     exp = mp.of(sym('in', 'data', 32 * j + 8 * k, 8))
                     nchk += 1
+                    if p != exp and mp.undecided(p):
+                        R.broke('NTT n=%d prime %d: round-trip lane %d contains an operation the rewriting does not model' % (n, k + 1, j))
+                        break
                     if p != exp:
                         bad.setdefault('C', 'prime %d: lane %d after ntt+intt is %s, not the input lane' % (k + 1, j, mp.show(p)))
                         break
@@ -282,34 +292,54 @@ def constants(L, R, qs):
     st = final_state(r1, ('out',)).get('res', {})
     for k in range(4):
         v = st.get(8 * k, (8, None))[1]
-        bad = None
+        bad = unk = None
         if v is None:
             bad = 'lane not written'
         else:
-            for s in (0, 1):
-                lo, hi = ((0, (1 << 63) - 1), (1 << 63, (1 << 64) - 1))[s]
+            # the coefficient is read as the unsigned word u; the mathematical input is u (u < 2^63) or u - 2^64.
+            # Ranges of u are bisected until, on each piece, no operation can wrap (E5), the sign of the wrap-free
+            # reading of the lane is known, and the congruence is a polynomial identity.
+            work = [(0, (1 << 63) - 1), (1 << 63, (1 << 64) - 1)]
+            pieces = 0
+            while work and not bad and pieces < 4000:
+                lo, hi = work.pop()
+                pieces += 1
                 I = Intervals(lambda nm, off, size, lo=lo, hi=hi: (lo, hi) if nm == 'x' else (0, (1 << (8 * size)) - 1), fmt)
 
                 def rng(t, I=I):
-                    r_ = I.ev_all([t])[0]
-                    return r_
+                    return I.ev_all([t])[0]
 
                 def bound(t, I=I):
                     r_ = I.ev_all([t])[0]
                     return r_[1] if r_ is not None and r_[0] >= 0 else None
 
                 mp = ModPoly(qs[k], None, bound, rng)
+                rv = rng(v)
+                mixed = rv is None or (rv[0] < 0 <= rv[1])
+                if I.findings or mixed:
+                    if lo == hi:
+                        bad = 'coefficient word %d: %s' % (lo, repr(I.findings[0])[:200] if I.findings else 'lane range %r' % (rv,))
+                    else:
+                        mid = (lo + hi) // 2
+                        work += [(lo, mid), (mid + 1, hi)]
+                    continue
                 p = mp.of(v)
-                # the mathematical input is u - 2^64*s where u is the unsigned reading of the coefficient
-                want = mp.add(mp.of(sym('in', 'x', 0, 8)), {(): (1 << 64) % qs[k]}, -s)
-                if I.findings:
-                    bad = bad or '%s coefficient: %s' % ('negative' if s else 'non-negative', repr(I.findings[0])[:200])
+                if rv[1] < 0:
+                    p = mp.add(p, {(): (1 << 64) % qs[k]})      # the stored word is the reading + 2^64
+                want = mp.add(mp.of(sym('in', 'x', 0, 8)), {(): (1 << 64) % qs[k]}, -(1 if lo >= (1 << 63) else 0))
+                if p != want and mp.undecided(p):
+                    unk = unk or 'for coefficient words in [%d, %d] lane %d is %s: contains an operation the congruence rewriting does not model' % (
+                        lo, hi, k, mp.show(p))
                 elif p != want:
-                    bad = bad or 'for %s coefficients lane %d is %s, the input is %s (mod q%d)' % (
-                        'negative' if s else 'non-negative', k, mp.show(p), mp.show(want), k + 1)
+                    bad = 'for coefficient words in [%d, %d] (%s inputs) lane %d is %s, the input is %s (mod q%d)' % (
+                        lo, hi, 'negative' if lo >= (1 << 63) else 'non-negative', k, mp.show(p), mp.show(want), k + 1)
+            if work and not bad:
+                unk = unk or 'range splitting did not converge (%d pieces)' % pieces
         subj = 'q120_b_from_znx64_simple lane %d' % k
         if bad:
             R.ob('int64-to-residue-lane-is-congruent', subj, 'refuted', detail=bad, key='q120_b_from_znx64_simple:lane%d' % k)
+        elif unk:
+            R.ob('int64-to-residue-lane-is-congruent', subj, 'unknown', detail=unk)
         else:
             R.ob('int64-to-residue-lane-is-congruent', subj, 'holds')
 
